@@ -884,5 +884,57 @@ func staleSignature(fc *FuncContract, sig *types.Signature) string {
 	if len(fc.ResultNames) > 0 && len(fc.ResultNames) != sig.Results().Len() {
 		return fmt.Sprintf("it was written for %d result(s), the function now has %d", len(fc.ResultNames), sig.Results().Len())
 	}
+	// the kind of each parameter/result as the directive wrote it (last path element of the type, pointer/slice marks)
+	short := func(t types.Type) string {
+		s := types.TypeString(t, func(*types.Package) string { return "" })
+		return s
+	}
+	norm := func(s string) string {
+		s = strings.TrimSpace(s)
+		s = strings.TrimPrefix(s, "...")
+		// drop package qualifiers: fs.DirEntry -> DirEntry, *unix.InotifyEvent -> *InotifyEvent
+		var b strings.Builder
+		i := 0
+		for i < len(s) {
+			j := i
+			for j < len(s) && (s[j] == '_' || s[j] >= 'a' && s[j] <= 'z' || s[j] >= 'A' && s[j] <= 'Z' || s[j] >= '0' && s[j] <= '9') {
+				j++
+			}
+			if j < len(s) && s[j] == '.' && j > i {
+				i = j + 1
+				continue
+			}
+			if j == i {
+				b.WriteByte(s[i])
+				i++
+				continue
+			}
+			b.WriteString(s[i:j])
+			i = j
+		}
+		return strings.ReplaceAll(b.String(), " ", "")
+	}
+	for i := 0; i < len(fc.ParamTypes) && i < sig.Params().Len(); i++ {
+		if fc.ParamTypes[i] == "" {
+			continue
+		}
+		at := sig.Params().At(i).Type()
+		if sig.Variadic() && i == sig.Params().Len()-1 {
+			if sl, ok := at.(*types.Slice); ok {
+				at = sl.Elem()
+			}
+		}
+		if a, d := norm(short(at)), norm(fc.ParamTypes[i]); a != d {
+			return fmt.Sprintf("parameter %d was %s when it was written and is %s now", i+1, d, a)
+		}
+	}
+	for i := 0; i < len(fc.ResultTypes) && i < sig.Results().Len(); i++ {
+		if fc.ResultTypes[i] == "" {
+			continue
+		}
+		if a, d := norm(short(sig.Results().At(i).Type())), norm(fc.ResultTypes[i]); a != d {
+			return fmt.Sprintf("result %d was %s when it was written and is %s now", i+1, d, a)
+		}
+	}
 	return ""
 }
